@@ -699,10 +699,33 @@ func scanSync(repo string) (inTxn, between []string) {
 			}
 			var txCall *ast.CallExpr
 			var tipAssign token.Pos
+			// the store transaction may live in a method of Manager called from syncDB (e.g. an
+			// extracted applyBatch): the call of that method then stands for the transaction
+			// statement, the closure handed to store.UpdateChainState is looked up inside it
+			txInHelper := map[string]*ast.CallExpr{}
+			for _, f2 := range files {
+				for _, d2 := range f2.Decls {
+					fd2, ok := d2.(*ast.FuncDecl)
+					if !ok || fd2.Body == nil || recvName(fd2) != "Manager" || fd2.Name.Name == "syncDB" {
+						continue
+					}
+					ast.Inspect(fd2.Body, func(n ast.Node) bool {
+						if ce, ok := n.(*ast.CallExpr); ok {
+							if s2, ok := ce.Fun.(*ast.SelectorExpr); ok && s2.Sel.Name == "UpdateChainState" && strings.HasSuffix(selString(s2.X), ".store") {
+								txInHelper[fd2.Name.Name] = ce
+							}
+						}
+						return true
+					})
+				}
+			}
+			var txInner *ast.CallExpr // the store.UpdateChainState call itself when it lives in a helper
 			ast.Inspect(fd.Body, func(n ast.Node) bool {
 				switch n := n.(type) {
 				case *ast.CallExpr:
-					if s, ok := n.Fun.(*ast.SelectorExpr); ok && s.Sel.Name == "UpdateChainState" && strings.HasSuffix(selString(s.X), ".store") {
+					if s, ok := n.Fun.(*ast.SelectorExpr); ok && selString(s.X) == recvVar(fd) && txInHelper[s.Sel.Name] != nil && txCall == nil {
+						txCall, txInner = n, txInHelper[s.Sel.Name]
+					} else if s, ok := n.Fun.(*ast.SelectorExpr); ok && s.Sel.Name == "UpdateChainState" && strings.HasSuffix(selString(s.X), ".store") {
 						if txCall != nil {
 							fatal("syncDB: more than one store.UpdateChainState call")
 						}
@@ -734,7 +757,13 @@ func scanSync(repo string) (inTxn, between []string) {
 			interesting := func(name string) bool {
 				return strings.HasSuffix(name, ".UpdateChainState") || strings.HasSuffix(name, ".ProcessActions") || strings.HasSuffix(name, ".SetLastIndex") || strings.HasSuffix(name, ".ResetChainState")
 			}
-			ast.Inspect(txCall.Args[0], func(n ast.Node) bool {
+			txBody := ast.Node(nil)
+			if txInner != nil {
+				txBody = txInner.Args[0]
+			} else {
+				txBody = txCall.Args[0]
+			}
+			ast.Inspect(txBody, func(n ast.Node) bool {
 				if ce, ok := n.(*ast.CallExpr); ok {
 					if nm := callName(ce); interesting(nm) {
 						inTxn = append(inTxn, nm)
